@@ -14,7 +14,43 @@ CHECKS["C01"] = dict(
         dict(name="harness_c01_cross", quick={}, thorough={}),
     ],
     anchors=["SymEngine::RealDouble::__hash__", "SymEngine::Integer::__hash__", "SymEngine::Rational::__hash__", "SymEngine::Add::__hash__", "SymEngine::Mul::__hash__",
-             "SymEngine::Basic::hash", "SymEngine::MSymEnginePoly"],
+             "SymEngine::MSymEnginePoly"],
     bounds="22 expression templates (all number kinds, Symbol, Mul, Add in two construction orders, Pow, Sin, FiniteSet, Interval, Lt, UIntPoly, URatPoly, MIntPoly over {x,y} and constant MIntPoly over a symbolic variable set, ImmutableDenseMatrix); integer slots in [-3,3] (bit-vector mode), rational denominators 1..3 (unnormalised inputs through from_two_ints), doubles: all 2^64 bit patterns; all same-template pairs and all cross-template pairs",
     outside=["expressions with more than 3 operators", "multi-limb integers", "slot values beyond [-3,3]"],
+)
+
+CHECKS["C02"] = dict(
+    src="C02.cpp", level="model_checking",
+    entries=[
+        dict(name="harness_c02_pairs", quick={}, thorough={"gauss_rat": 1}),
+        dict(name="harness_c02_triples", quick={"thi": 14, "skipmask": (1 << 2) | (1 << 4)}, thorough={}),
+        dict(name="harness_c02_numtriples", quick={}, thorough={}, thorough_only=True),
+        dict(name="harness_c02_setorder", quick={"tlo": 0, "thi": 12, "skipmask": (1 << 1) | (1 << 2) | (1 << 4)}, thorough={}),
+    ],
+    anchors=["SymEngine::Basic::__cmp__", "SymEngine::RealDouble::compare", "SymEngine::Integer::compare", "SymEngine::Add::compare", "SymEngine::Mul::compare", "SymEngine::RCPBasicKeyLess"],
+    bounds="same universe as C01 (22 templates, integer slots [-3,3], all double bit patterns); all same-template pairs plus all 7x7 number-kind pairs; same-template triples; std::set insertion orders of 3 elements",
+    outside=["mixed-template triples beyond number kinds (quick tier)", "expressions with more than 3 operators"],
+)
+
+CHECKS["C29"] = dict(
+    src="C29.cpp", level="model_checking",
+    entries=[
+        dict(name="harness_c29_pairs", quick={}, thorough={"nmax": 40}),
+        dict(name="harness_c29_subs", quick={}, thorough={"nmax": 40}),
+    ],
+    anchors=["SymEngine::Le(", "SymEngine::Lt(", "SymEngine::Eq(", "SymEngine::Ne(", "SymEngine::Ge(", "SymEngine::Gt("],
+    bounds="ordered pairs over {Integer |v|<=6 (40), Rational n/d |n|<=6 (40), d in {1,2,4} (and 3 against exact numbers), RealDouble: every non-NaN bit pattern incl. +-0, +-inf, +-oo}; the numeric relation is computed by an independent exact comparison in the harness",
+    outside=["NaN doubles (no numeric order)", "complex numbers", "multi-limb integers", "rationals with denominator 3 against doubles (conversion rounds)", "IEEE +-inf doubles against the symbolic infinities"],
+)
+
+CHECKS["C09"] = dict(
+    src="C09.cpp", level="model_checking",
+    entries=[
+        dict(name="harness_c09_value", quick={"B": 3, "kmax": 3}, thorough={"B": 6, "kmax": 4}),
+        dict(name="harness_c09_identity", quick={"B": 2}, thorough={"B": 4}),
+    ],
+    anchors=["SymEngine::ExpandVisitor", "SymEngine::expand("],
+    bounds="6 shapes: (c0+c1 x+c2 y)^k k<=3 (4), products of two/three linear forms incl. an opaque f(x) atom, k*(l1*l2)+l3^2, (l1*l2)^-2, rational coefficients; integer coefficient slots |c|<=3 (6) symbolic (exact Z), x, y, f(x) arbitrary reals; identity decision for (ax+b)(cx+d) vs e2 x^2+e1 x+e0",
+    outside=["more than 3 factors", "exponents above 4", "non-polynomial atoms other than one opaque function application"],
+    assumptions=["value oracle D2 (vlib/veval.h): Add/Mul/Pow node meaning over the reals"],
 )
